@@ -109,7 +109,7 @@ def check_accessor(prog, check, f, role, summ, pid_rules=('C16.R1', 'C16.R2')):
     aa = AliasAnalysis(g, f.node, prog, f.cls, returns_fresh=summ.returns_fresh_call)
     r1, r2 = pid_rules
     for n in g.stmt_nodes(lambda n: isinstance(n.ast, ast.Return)):
-        if n.ast.value is None:
+        if n.ast.value is None or r1 is None:
             continue
         tags = aa.tags(n.ast.value, n)
         check.ob(r1, '%s::return(%s)' % (f.key, unparse(n.ast.value)), ALIAS not in tags,
